@@ -856,6 +856,36 @@ def stream_partial(ctx: Ctx, res: Result, shipped):
                     res.oracle_failures.append(OracleFailure(what="effective configuration of a partly specified file is not user-over-packaged-default", input={"check": "partial", "cfg": before},
                                                              observed=repr(eff)[:300], expected=repr(ref)[:300], site="effective:partial:differs"))
                 if ok: res.traces_validated += 1
+        # ---- a working directory that itself holds `default/settings.yaml` and `schema/config.schema.json` (foreign files with the packaged
+        #      RELATIVE names): the packaged defaults and the packaged schema are what count, wherever the process happens to stand
+        shadow = os.path.join(tmp, "shadow-cwd")
+        os.makedirs(os.path.join(shadow, "default")); os.makedirs(os.path.join(shadow, "schema"))
+        with open(os.path.join(shadow, "default", "settings.yaml"), "w") as fp:
+            fp.write(yaml.safe_dump({"qha": {"settings": {"NT": 3, "foreign_key": 1}}, "foreign_section": {"x": 1}}))
+        with open(os.path.join(shadow, "schema", "config.schema.json"), "w") as fp:
+            fp.write("{}")                                                  # accepts everything
+        n_sh = 0
+        for name, cfg in list(shipped.items())[:3]:
+            if name == "default": continue
+            user = copy.deepcopy(cfg)
+            ref_eff = apply_default_config(copy.deepcopy(user))
+            broken = del_path(copy.deepcopy(user), ("qha",)) if "qha" in user else None
+            cwd = os.getcwd(); os.chdir(shadow)
+            try:
+                eff = apply_default_config(copy.deepcopy(user))
+                verdict = call_validate(copy.deepcopy(broken)) if broken is not None else "reject"
+            finally:
+                os.chdir(cwd)
+            res.evaluations += 2; n_sh += 1
+            if canon(eff) != canon(ref_eff):
+                res.oracle_failures.append(OracleFailure(what="effective configuration depends on files lying in the working directory (default/settings.yaml there shadows the packaged defaults)",
+                                                         input={"check": "shadow-cwd", "cfg": user}, observed=repr(eff)[:300], expected=repr(ref_eff)[:300], site="effective:shadow-cwd"))
+            elif verdict != "reject":
+                res.oracle_failures.append(OracleFailure(what="a configuration without its qha section is accepted when the working directory holds schema/config.schema.json",
+                                                         input={"check": "shadow-cwd", "cfg": broken}, observed=verdict, expected="reject", site="validate:shadow-cwd"))
+            else:
+                res.traces_validated += 2
+        res.distribution["shadowing_working_directory_cases"] = n_sh
     finally:
         shutil.rmtree(tmp, ignore_errors=True)
     res.distribution["partial_file_flow_cases"] = n
@@ -1251,6 +1281,29 @@ def replay(ctx: Ctx, payload):
         fails = oracle_validate_pure(copy.deepcopy(payload["cfg"]))
     elif chk == "section_file":
         fails = oracle_section_file(copy.deepcopy(payload["cfg"]), payload.get("suffix", ".yaml"))
+    elif chk == "shadow-cwd":
+        cfg = payload["cfg"]
+        tmp = tempfile.mkdtemp(prefix="cij_c16_")
+        try:
+            os.makedirs(os.path.join(tmp, "default")); os.makedirs(os.path.join(tmp, "schema"))
+            with open(os.path.join(tmp, "default", "settings.yaml"), "w") as fp:
+                fp.write(yaml.safe_dump({"qha": {"settings": {"NT": 3, "foreign_key": 1}}, "foreign_section": {"x": 1}}))
+            with open(os.path.join(tmp, "schema", "config.schema.json"), "w") as fp: fp.write("{}")
+            ref_eff = apply_default_config(copy.deepcopy(cfg)) if isinstance(cfg, dict) and "qha" in cfg else None
+            cwd = os.getcwd(); os.chdir(tmp)
+            try:
+                if ref_eff is not None:
+                    eff = apply_default_config(copy.deepcopy(cfg))
+                    if canon(eff) != canon(ref_eff):
+                        fails.append(("effective configuration depends on files lying in the working directory", repr(eff)[:300], repr(ref_eff)[:300], "effective:shadow-cwd"))
+                else:
+                    verdict = call_validate(copy.deepcopy(cfg))
+                    if verdict != "reject":
+                        fails.append(("a configuration without its qha section is accepted when the working directory holds schema/config.schema.json", verdict, "reject", "validate:shadow-cwd"))
+            finally:
+                os.chdir(cwd)
+        finally:
+            shutil.rmtree(tmp, ignore_errors=True)
     elif chk == "partial":
         cfg = payload["cfg"]
         v = copy.deepcopy(cfg)
